@@ -95,9 +95,12 @@ def impl_broadcast(cfg, t1, t2, rng, res):
 def oracle_pair(res, case, t1, t2, s1, s2, kw1, kw2, out):
     res.evaluations += 1
     st1, st2 = s1.__getstate__(), s2.__getstate__()
+    rp1, rp2 = repr(s1), repr(s2)
+    same_registry = case[1][3] == case[3][3]      # the pair generator may change the registry after s1 was made
     r12 = attempt(lambda: s1.broadcast_to_common_suffix(s2))
     r21 = attempt(lambda: s2.broadcast_to_common_suffix(s1))
-    if s1.__getstate__() != st1 or s2.__getstate__() != st2 or repr(s1) != repr(optree.tree_structure(t1, **kw1)):
+    if s1.__getstate__() != st1 or s2.__getstate__() != st2 or repr(s1) != rp1 or repr(s2) != rp2 \
+            or (same_registry and repr(s1) != repr(optree.tree_structure(t1, **kw1))):
         res.fail('broadcast_to_common_suffix changed an operand', case)
     if (r12[0] == 0) != (r21[0] == 0):
         res.fail('broadcast_to_common_suffix succeeds in one argument order only', case)
